@@ -329,6 +329,9 @@ static int Convert_mus2midi(uint8_t *in, uint32_t insize,
         uint8_t *out_local = temp_buffer;
         uint8_t status, bit1, bit2, bitc = 2;
 
+/* every read from the score is checked against its end: a truncated event makes the score invalid */
+#define MUS_NEED(n) do { if ((size_t)(end - cur) < (size_t)(n)) goto _end; } while (0)
+
         /* read in current bit */
         event = *cur++;
         channel = (event & 15);     /* current channel */
@@ -352,23 +355,29 @@ static int Convert_mus2midi(uint8_t *in, uint32_t insize,
         switch ((event & 122) >> 4){
             case MUSEVENT_KEYOFF:
                 status |=  0x80;
+                MUS_NEED(1);
                 bit1 = *cur++;
                 bit2 = 0x40;
                 break;
             case MUSEVENT_KEYON:
                 status |= 0x90;
+                MUS_NEED(1);
                 bit1 = *cur & 127;
-                if (*cur++ & 128)   /* volume bit? */
+                if (*cur++ & 128) { /* volume bit? */
+                    MUS_NEED(1);
                     channel_volume[channelMap[channel]] = *cur++;
+                }
                 bit2 = channel_volume[channelMap[channel]];
                 break;
             case MUSEVENT_PITCHWHEEL:
                 status |= 0xE0;
+                MUS_NEED(1);
                 bit1 = (*cur & 1) << 6;
                 bit2 = (*cur++ >> 1) & 127;
                 break;
             case MUSEVENT_CHANNELMODE:
                 status |= 0xB0;
+                MUS_NEED(1);
                 if (*cur >= sizeof(mus_midimap) / sizeof(mus_midimap[0])) {
                     /*_WM_ERROR_NEW("%s:%i: can't map %u to midi",
                                   __FUNCTION__, __LINE__, *cur);*/
@@ -378,6 +387,7 @@ static int Convert_mus2midi(uint8_t *in, uint32_t insize,
                 bit2 = (*cur++ == 12) ? header.channels + 1 : 0x00;
                 break;
             case MUSEVENT_CONTROLLERCHANGE:
+                MUS_NEED(2);
                 if (*cur == 0) {
                     cur++;
                     status |= 0xC0;
@@ -432,7 +442,10 @@ static int Convert_mus2midi(uint8_t *in, uint32_t insize,
         if (event & 128) {
             delta_time = 0;
             do {
-                delta_time = (int32_t)((delta_time * 128 + (*cur & 127)) * (140.0 / (double)frequency));
+                double next;
+                MUS_NEED(1);
+                next = ((double)delta_time * 128 + (*cur & 127)) * (140.0 / (double)frequency);
+                delta_time = (next < (double)0x0FFFFFFF) ? (int32_t)next : 0x0FFFFFFF; /* largest MIDI delta */
             } while ((*cur++ & 128));
         } else {
             delta_time = 0;
@@ -449,6 +462,7 @@ static int Convert_mus2midi(uint8_t *in, uint32_t insize,
     *outsize = ctx.dstsize - ctx.dstrem;
     ret = 0;
 
+#undef MUS_NEED
 _end:   /* cleanup */
     if (ret < 0) {
         free(ctx.dst);
